@@ -506,6 +506,32 @@ class Norm:
         if isinstance(e, ast.Compare) and len(e.ops) == 1:
             op = e.ops[0]
             l, r = e.left, e.comparators[0]
+            # X.size - np.count_nonzero(X) == 0  /  np.count_nonzero(X) == X.size   <=>  np.all(X)   ("no entry is unset")
+            if isinstance(op, (ast.Eq, ast.NotEq)):
+                def _size_of(x):
+                    if isinstance(x, ast.Attribute) and x.attr == "size":
+                        return ast.unparse(x.value)
+                    if isinstance(x, ast.Call) and ast.unparse(x.func) == "len" and len(x.args) == 1:
+                        return ast.unparse(x.args[0])
+                    if isinstance(x, ast.Subscript) and isinstance(x.value, ast.Attribute) and x.value.attr == "shape" and ast.unparse(x.slice) == "0":
+                        return ast.unparse(x.value.value)
+                    return None
+
+                def _count_of(x):
+                    if isinstance(x, ast.Call) and ast.unparse(x.func) == "np.count_nonzero" and len(x.args) == 1 and not x.keywords:
+                        return x.args[0]
+                    return None
+                pairs = []
+                for a_, b_ in ((l, r), (r, l)):
+                    if isinstance(b_, ast.Constant) and b_.value == 0 and isinstance(a_, ast.BinOp) and isinstance(a_.op, ast.Sub):
+                        pairs.append((a_.left, a_.right))
+                pairs.append((l, r))
+                pairs.append((r, l))
+                for s_, c_ in pairs:
+                    cx = _count_of(c_)
+                    if cx is not None and _size_of(s_) is not None and _size_of(s_) == ast.unparse(cx):
+                        allx = ast.Call(func=ast.Attribute(value=ast.Name(id="np", ctx=ast.Load()), attr="all", ctx=ast.Load()), args=[cx], keywords=[])
+                        return self.b(allx, neg != isinstance(op, ast.NotEq), integer)
             # np.count_nonzero(x) == 0  <=>  all(x == 0)   (NaN counts as non-zero on both sides);  != 0 / > 0  <=>  any(x != 0)
             for a_, b_ in ((l, r), (r, l)):
                 if isinstance(a_, ast.Call) and ast.unparse(a_.func) == "np.count_nonzero" and len(a_.args) == 1 and not a_.keywords \
